@@ -926,7 +926,6 @@ def _identity(x):
 @_formats('type-reference-tail -> type-word "." type-reference-tail')
 @_formats("field-reference -> snake-reference field-reference-tail*")
 @_formats('abbreviation -> "(" snake-word ")"')
-@_formats("additive-expression-right -> additive-operator times-expression")
 @_formats(
     "additive-expression-right* -> additive-expression-right"
     "                              additive-expression-right*"
@@ -1015,6 +1014,15 @@ def _identity(x):
 def _concatenate(*elements):
     """Concatenates all arguments with no delimiters."""
     return "".join(elements)
+
+
+@_formats("additive-expression-right -> additive-operator times-expression")
+def _additive_expression_right(operator, operand):
+    """Concatenates operator and operand, keeping "- -x" from becoming "--x"."""
+    # "--" would start a documentation comment.
+    if operator == "-" and operand.startswith("-"):
+        return operator + " " + operand
+    return operator + operand
 
 
 @_formats("equality-expression-right -> equality-operator additive-expression")
